@@ -40,12 +40,12 @@ func loadKnownFindings() []KnownFinding {
 }
 
 type oblOutcome struct {
-	O   *Obligation
-	R   SolveResult
-	FR  *FuncResult
-	OK  bool
+	O            *Obligation
+	R            SolveResult
+	FR           *FuncResult
+	OK           bool
 	Inconclusive bool
-	Replay *ReplayOutcome
+	Replay       *ReplayOutcome
 }
 
 func hasProp(props []string, p string) bool {
@@ -118,7 +118,7 @@ func cmdCheck(args []string) {
 				}
 			}
 			for _, aa := range con.Asserts {
-				if hasProp(aa.Clause.Props, *prop) {
+				if aa.Clause != nil && hasProp(aa.Clause.Props, *prop) {
 					tagged = true
 				}
 			}
@@ -156,6 +156,7 @@ func cmdCheck(args []string) {
 	if len(results) == 0 {
 		toolErr("no function under contract for property %s", *prop)
 	}
+	results = append(results, plainCodecResults(l, cs, *prop)...)
 	for _, fr := range results {
 		if fr.UsesSum {
 			for _, lr := range lemmaResults() {
@@ -500,22 +501,22 @@ func cmdCheck(args []string) {
 		"seed":        seed,
 		"level":       "proof",
 		"coverage": map[string]any{
-			"obligations":  proofObls,
-			"discharged":   discharged,
-			"checker_cmd":  fmt.Sprintf("bin/vc check -property %s -tier %s (z3 5.1.0 / z3 4.8.12 / cvc5 1.0.3 race, %ds per obligation; undecided obligations get one second round at %ds)", *prop, *tier, timeout, 3*timeout),
-			"trusted_base": []string{"go1.26.8 go/types + x/tools v0.50.0 go/ssa", "vcgen SSA->SMT encoder", "z3 5.1.0", "z3 4.8.12", "cvc5 1.0.3", "extern contracts listed under assumptions"},
-			"functions_under_contract": funcsUnder,
-			"contract_clauses_bound":   clauses,
-			"per_function":             perFunc,
-			"by_solver":                bySolver,
-			"solver_time_s":            round3(solverTime),
-			"second_round_obligations": retried,
-			"discharged_by_cases":      byCases,
-			"vacuity_covers":           covers,
+			"obligations":                 proofObls,
+			"discharged":                  discharged,
+			"checker_cmd":                 fmt.Sprintf("bin/vc check -property %s -tier %s (z3 5.1.0 / z3 4.8.12 / cvc5 1.0.3 race, %ds per obligation; undecided obligations get one second round at %ds)", *prop, *tier, timeout, 3*timeout),
+			"trusted_base":                []string{"go1.26.8 go/types + x/tools v0.50.0 go/ssa", "vcgen SSA->SMT encoder", "z3 5.1.0", "z3 4.8.12", "cvc5 1.0.3", "extern contracts listed under assumptions"},
+			"functions_under_contract":    funcsUnder,
+			"contract_clauses_bound":      clauses,
+			"per_function":                perFunc,
+			"by_solver":                   bySolver,
+			"solver_time_s":               round3(solverTime),
+			"second_round_obligations":    retried,
+			"discharged_by_cases":         byCases,
+			"vacuity_covers":              covers,
 			"vacuity_covers_inconclusive": coversInconclusive,
-			"samples":                  samples,
-			"failed":                   failed,
-			"known_findings":           knownLines,
+			"samples":                     samples,
+			"failed":                      failed,
+			"known_findings":              knownLines,
 		},
 		"assumptions": assumptions,
 		"wall_s":      round3(time.Since(start).Seconds()),
@@ -589,19 +590,19 @@ func writeReplay(prop string, oc *oblOutcome) string {
 	os.MkdirAll(dir, 0o755)
 	p := filepath.Join(dir, sanitize(oc.O.Name)+".json")
 	rec := map[string]any{
-		"property":   prop,
-		"obligation": oc.O.Name,
-		"kind":       oc.O.Kind,
-		"function":   oc.O.Fn,
-		"clause":     oc.O.Src,
-		"where":      oc.O.Where,
-		"status":     oc.R.Status,
-		"solver":     oc.R.Solver,
-		"model":      oc.R.Model,
-		"replay":     oc.Replay,
-		"tier":       curTier,
+		"property":      prop,
+		"obligation":    oc.O.Name,
+		"kind":          oc.O.Kind,
+		"function":      oc.O.Fn,
+		"clause":        oc.O.Src,
+		"where":         oc.O.Where,
+		"status":        oc.R.Status,
+		"solver":        oc.R.Solver,
+		"model":         oc.R.Model,
+		"replay":        oc.Replay,
+		"tier":          curTier,
 		"solver_output": oc.R.Raw,
-		"smt_file":   oc.R.File,
+		"smt_file":      oc.R.File,
 	}
 	b, _ := json.MarshalIndent(rec, "", " ")
 	os.WriteFile(p, b, 0o644)
